@@ -128,10 +128,11 @@ theorem tie_pool_Kill_Forget :
     killContainerConds = ["if rr == nil", "if rr != nil"] ∧ forgetContainerConds = ["if ok"] := ⟨rfl, rfl⟩
 
 /-- `worker.startContainer`: runner into `starting`, state Running (`C14.Worker.accept`); the
-goroutine calls `rr.Start()`, then under the lock deletes from `starting` and sets `running`
-(`C14.Worker.startDone`). -/
+goroutine calls `rr.Start()`, then under the lock — unless its runner has left `starting`
+(fix 18910db) — deletes from `starting` and sets `running` (`C14.Worker.startDone`). -/
 theorem tie_worker_startContainer :
-    startContainerWorkerConds = ["if wkr.state != StateRunning", "if wkr.wp.mTimeFromQueueToCrunchRun != nil"] ∧
+    startContainerWorkerConds = ["if wkr.state != StateRunning", "if wkr.wp.mTimeFromQueueToCrunchRun != nil",
+                                 "if wkr.starting[ctr.UUID] != rr"] ∧
     startContainerWorkerCalls = ["newRemoteRunner", "rr.Start", "wkr.mtx.Lock", "wkr.mtx.Unlock", "delete"] :=
   ⟨rfl, rfl⟩
 
